@@ -18,8 +18,9 @@
 //	race <a> <b> <skew>       a, b ∈ signal | broadcast | lsignal | lbroadcast | cancel:<w> | release:<w>, run by two goroutines
 //	settle                    release everybody, wait for all timers, wait until every waiter has returned
 //	                          or is parked in the select (runtime goroutine state), then report
-//	                          r=<w>:<nil|err|parked>[!],…  len=<n> dirty=<d> lfree=<0|1> cnt=<k> hang=<0|1>
-//	                          ('!' = Wait returned without holding L)
+//	                          r=<w>:<nil|err|errother|parked>[!],…  len=<n> dirty=<d> lfree=<0|1> cnt=<k> hang=<0|1>
+//	                          ('!' = Wait returned without holding L; err = the error of the waiter's own
+//	                          context, by identity; errother = any other non-nil error)
 //
 // Nothing here asserts anything: the Lean driver decides (model mode: is the outcome reachable in the
 // transition system the theorems are about; spec mode: the laws of the property).
@@ -28,6 +29,7 @@ package main
 import (
 	"context"
 	"encoding/json"
+	"errors"
 	"flag"
 	"fmt"
 	"os"
@@ -468,6 +470,23 @@ type vctx struct {
 	once   sync.Once
 	errs   *atomic.Int64 // Err() calls = ctx arm taken
 	nilDon bool
+	err    *ctxEnded // THIS context's error: a value no other context (and no other code) can produce
+}
+
+// ctxEnded is the error of one particular context.  "Wait returns ... with its context's error" is
+// observed by identity (errors.Is along the unwrap chain, so a wrapped ctx.Err() still counts), never
+// by wording; like the errors of package context it matches context.Canceled / DeadlineExceeded.
+type ctxEnded struct {
+	waiter   int
+	deadline bool
+}
+
+func (e *ctxEnded) Error() string { return "context of waiter " + strconv.Itoa(e.waiter) + " ended" }
+func (e *ctxEnded) Is(target error) bool {
+	if e.deadline {
+		return target == context.DeadlineExceeded
+	}
+	return target == context.Canceled
 }
 
 func (c *vctx) Deadline() (time.Time, bool) { return time.Time{}, false }
@@ -482,6 +501,9 @@ func (c *vctx) Err() error {
 		c.errs.Add(1)
 	}
 	if c.ended.Load() {
+		if c.err != nil {
+			return c.err
+		}
 		return context.Canceled
 	}
 	return nil
@@ -514,7 +536,7 @@ type waiter struct {
 	unlOnce  sync.Once
 	state    atomic.Int32
 	goid     atomic.Int64
-	res      string // "nil" | "err" ; written before state=stReturned
+	res      string // "nil" | "err" (= this waiter's ctx.Err(), possibly wrapped) | "errother" (any other error); written before state=stReturned
 	heldL    bool
 	panicMsg string
 	timerSet bool
@@ -672,8 +694,12 @@ func (cs *caseState) body(w *waiter) {
 	w.heldL = cs.L.holder.Load() == id
 	if err == nil {
 		w.res = "nil"
-	} else {
+	} else if errors.Is(err, error(w.ctx.err)) {
+		// the value only this context's Err() returns, and only once the context has ended
 		w.res = "err"
+	} else {
+		// some other error: another context's, a constant such as context.DeadlineExceeded, a fresh one …
+		w.res = "errother"
 	}
 	if w.heldL {
 		cs.counter++ // plain access: a data race here (thorough tier, -race) means L is not held
@@ -709,7 +735,7 @@ func (cs *caseState) startWait(id int, kindArg string, hold bool) string {
 		return "noop"
 	}
 	w := &waiter{id: id, kind: kind, hold: hold, relCh: make(chan struct{}), unlocked: make(chan struct{})}
-	w.ctx = &vctx{done: make(chan struct{}), errs: &cs.errs, nilDon: kind == "bgn"}
+	w.ctx = &vctx{done: make(chan struct{}), errs: &cs.errs, nilDon: kind == "bgn", err: &ctxEnded{waiter: id, deadline: kind == "to"}}
 	cs.ws[id] = w
 	cs.ids = append(cs.ids, id)
 	st.Waits++
